@@ -232,7 +232,7 @@ def history(kind_h, n, rng):
     return out
 
 
-def drive(name, T, k, start, hist, rng, on_step, reset_at=None, decay=None):
+def drive(name, T, k, start, hist, rng, on_step, reset_at=None, decay=None, roundtrip_at=None):
     """Build the real proposal, feed it the history through prop.update(stub); call on_step(kind, before, after, info)."""
     kind, make = FAMILIES[name]
     prop = make(T, k, start)
@@ -244,10 +244,19 @@ def drive(name, T, k, start, hist, rng, on_step, reset_at=None, decay=None):
     for i, (ar, accepted) in enumerate(hist):
         if reset_at is not None and i == reset_at:
             prop._reset_adaptation()         # Chain.reset_proposals(): the window restarts at the current step
+        if roundtrip_at is not None and i == roundtrip_at:
+            # checkpoint / resume: the state goes through pickle into a freshly constructed proposal
+            import pickle
+            fresh = make(T, k, start)
+            if decay is not None and kind == 'veitch':
+                fresh.adaptation_decay = decay
+            fresh.set_state(pickle.loads(pickle.dumps(prop.state)))
+            prop = fresh
+            prev = None
         if accepted:
             pos = [pos[0] + rng.uniform(-0.5, 0.5), min(0.99, max(0.01, pos[1] + rng.uniform(-0.1, 0.1)))]
         stub.set(ar, accepted, pos)
-        before = snapshot(kind, prop) if (prev is None or (reset_at is not None and i == reset_at)) else prev
+        before = snapshot(kind, prop) if (prev is None or (reset_at is not None and i == reset_at) or (roundtrip_at is not None and i == roundtrip_at)) else prev
         called = prop._call_jump()
         try:
             prop.update(stub)
